@@ -42,7 +42,7 @@ META = {
     "seed passed as argument) is tied to mutation.py by the recorded draw log (kind, thread, which draw seeds which task) on every run; the order in which the solver "
     "constructor seeds its operators is compared with Seeds.seedOrder.",
     "rule": "cases = (a) mutation operators (topological search, layer removal, parameter search, last-layer search; probability in {0.3, 0.6, 1}) on populations of 2-7 "
-    "individuals x 3 single-worker executors x 2 repetitions; (b) EVQE solves (2-3 qubits, population 3-5, 2-3 generations, COBYLA/SPSA-free deterministic optimiser, exact "
+    "individuals x 3 single-worker executors x 2 repetitions; (b) EVQE solves (2-3 qubits, population 3-5, 2-3 generations, COBYLA or SPSA (seeded by the library per task), exact "
     "fake primitives, tournament or roulette selection) x {repeat, eager, deferred} + sub-processes with PYTHONHASHSEED in {0, 1, 4242}; (c) random layer / individual / "
     "population / job-shop instance constructors x seeds, twice and across sub-processes. non-trivial = at least two tasks submitted (a), any solve (b); distinct = "
     "(operator, population, seed) resp. solver configuration",
@@ -234,7 +234,7 @@ def solve_fingerprint(cfg, exname):
     warnings.filterwarnings("ignore")
     import numpy as np
     from qiskit.quantum_info import SparsePauliOp
-    from qiskit_algorithms.optimizers import COBYLA
+    from qiskit_algorithms.optimizers import COBYLA, SPSA
 
     import fakes
     import genome_corr as G
@@ -246,7 +246,8 @@ def solve_fingerprint(cfg, exname):
     try:
         conf = EVQEMinimumEigensolverConfiguration(
             configured_estimator=ConfiguredEstimatorV2(estimator=fakes.ExactEstimator(), precision=None) if cfg["estimator"] else None,
-            configured_sampler=ConfiguredSamplerV2(sampler=fakes.ExactSampler(), shots=256), pass_manager=None, optimizer=COBYLA(maxiter=cfg["maxiter"]),
+            configured_sampler=ConfiguredSamplerV2(sampler=fakes.ExactSampler(), shots=256), pass_manager=None,
+            optimizer=SPSA(maxiter=cfg["maxiter"], learning_rate=0.1, perturbation=0.1) if cfg.get("optimizer") == "SPSA" else COBYLA(maxiter=cfg["maxiter"]),
             optimizer_n_circuit_evaluations=None, max_generations=cfg["max_gen"], max_circuit_evaluations=None, termination_criterion=None, random_seed=cfg["seed"],
             population_size=cfg["population"], speciation_genetic_distance_threshold=cfg["threshold"], selection_alpha_penalty=0.1, selection_beta_penalty=0.05,
             parameter_search_probability=cfg["p_param"], topological_search_probability=cfg["p_topo"], layer_removal_probability=cfg["p_rem"],
@@ -280,12 +281,15 @@ def run_sub(snippet, hashseed):
     raise RuntimeError("sub-process failed: " + p.stderr[-400:])
 
 
-def solve_case(ctx, rng, subprocess_seeds):
+def solve_case(ctx, rng, subprocess_seeds, optimizer=None):
     nq = rng.choice([2, 2, 3])
     paulis = sorted({"".join(rng.choice("IXYZ") for _ in range(nq)) for _ in range(rng.randint(1, 3))})
     cfg = {"paulis": paulis, "coeffs": [rng.randint(-4, 4) / 2 or 1.0 for _ in paulis], "estimator": rng.random() < 0.6, "maxiter": rng.randint(2, 4), "max_gen": rng.randint(2, 3),
            "seed": rng.randrange(2**31), "population": rng.randint(3, 5), "threshold": rng.randint(1, 3), "p_param": round(rng.random(), 2), "p_topo": round(rng.random(), 2),
-           "p_rem": round(rng.random() * 0.4, 2), "tournament": rng.random() < 0.5, "mutex": rng.random() < 0.2}
+           "p_rem": round(rng.random() * 0.4, 2), "tournament": rng.random() < 0.5, "mutex": rng.random() < 0.2,
+           "optimizer": rng.choice(["COBYLA", "SPSA"])}  # SPSA draws from qiskit's process-global generator, which the library seeds per task
+    if optimizer:
+        cfg["optimizer"] = optimizer
     if cfg["mutex"]:
         cfg["maxiter"], cfg["max_gen"], cfg["population"] = 2, 2, 3  # the batching wrapper waits 0.1 s per (sequential) evaluation
     if not cfg["estimator"]:
@@ -407,7 +411,7 @@ def run(ctx):
     for i in range(ctx.n(3, 40)):
         if ctx.out_of_time():
             break
-        solve_case(ctx, rng, hs if (i == 0 or ctx.thorough() and i % 4 == 0) else [])
+        solve_case(ctx, rng, hs if (i == 0 or ctx.thorough() and i % 4 == 0) else [], optimizer=["SPSA", "COBYLA"][i % 2])
 
 
 def replay(ctx, case):
